@@ -315,6 +315,9 @@ pub struct AdapterMix {
     pub simjoin: bool,
     pub mmap: bool,
     pub traits: bool,
+    /// readers may misbehave and paths may be unhashable (the hasher must stay usable); off where the workload
+    /// needs every fragment delivered (a C09 shard)
+    pub faulty: bool,
 }
 
 pub fn adapter(r: &mut Rng, len: usize, mix: &AdapterMix) -> AbsorbVia {
@@ -323,13 +326,29 @@ pub fn adapter(r: &mut Rng, len: usize, mix: &AdapterMix) -> AbsorbVia {
         return AbsorbVia::Update;
     }
     if mix.io && x < 65 {
+        // a fifth of the readers misbehave (storms of Interrupted, hard errors, early EOF): what was yielded before
+        // an error is absorbed, the hasher stays usable
+        if !mix.faulty && r.chance(1, 8) {
+            // every byte must arrive here: the caller retries after a reader that stopped early
+            return AbsorbVia::ReaderRetry(faulty_script(r));
+        }
+        let faulty = mix.faulty;
+        let mut script = |r: &mut Rng| match r.below(10) {
+            0 if faulty => faulty_script(r),
+            1 if faulty => stormy_script(r),
+            _ => clean_script(r),
+        };
         return match r.below(5) {
             0 => AbsorbVia::Write,
             1 => AbsorbVia::WriteAll,
-            2 => AbsorbVia::IoCopy(clean_script(r)),
-            3 => AbsorbVia::ReaderDyn(clean_script(r)),
-            _ => AbsorbVia::Reader(clean_script(r)),
+            2 => AbsorbVia::IoCopy(script(r)),
+            3 => AbsorbVia::ReaderDyn(script(r)),
+            _ => AbsorbVia::Reader(script(r)),
         };
+    }
+    if mix.io && mix.faulty && x < 67 {
+        // a path that cannot be hashed: Err, and the hasher is what it was
+        return AbsorbVia::PathError { how: r.below(4) as u8 };
     }
     if mix.simjoin && x < 80 && len > KIB {
         return AbsorbVia::SimJoin(join_policy(r));
@@ -425,7 +444,7 @@ pub fn c02(base_seed: u64, i: u64, g: &GenCtx) -> Plan {
     let mut data: Vec<DataSpec> = Vec::new();
     let mut tasks: Vec<Vec<Op>> = vec![Vec::new(); ntasks];
     let mut next_slot = 0usize;
-    let mixa = AdapterMix { io: r.chance(3, 4), rayon: r.chance(1, 3), simjoin: r.chance(1, 2), mmap: r.chance(1, 6), traits: false };
+    let mixa = AdapterMix { io: r.chance(3, 4), rayon: r.chance(1, 3), simjoin: r.chance(1, 2), mmap: r.chance(1, 6), traits: false, faulty: true };
     let mut conc = false;
     for _ in 0..nh {
         let total = size(&mut r, max);
@@ -733,7 +752,7 @@ pub fn c10(base_seed: u64, i: u64, g: &GenCtx) -> Plan {
     let mut tasks: Vec<Vec<Op>> = vec![Vec::new(); ntasks];
     let npool = 1 + r.usize_below(2);
     let mut slot = npool;
-    let mixa = AdapterMix { io: r.chance(1, 2), rayon: r.chance(1, 6), simjoin: r.chance(1, 4), mmap: false, traits: false };
+    let mixa = AdapterMix { io: r.chance(1, 2), rayon: r.chance(1, 6), simjoin: r.chance(1, 4), mmap: false, traits: false, faulty: true };
     let max = if g.tier_thorough { 200 * KIB } else { 40 * KIB };
     for h in 0..npool {
         let m = mode(&mut r, &mut data);
@@ -958,7 +977,7 @@ fn solo_program(r: &mut Rng, data: &mut Vec<DataSpec>, slot: &mut usize, g: &Gen
                 let h = *slot;
                 *slot += 1;
                 ops.push(Op::NewHasher { slot: h, mode: m, via: NewVia::Inherent });
-                let mixa = AdapterMix { io: true, rayon: false, simjoin: false, mmap: false, traits: false };
+                let mixa = AdapterMix { io: true, rayon: false, simjoin: false, mmap: false, traits: false, faulty: true };
                 let mut off = 0;
                 for f in fragments(r, total) {
                     let mut via = adapter(r, f, &mixa);
@@ -1072,7 +1091,7 @@ pub fn c09(base_seed: u64, i: u64, g: &GenCtx) -> Plan {
     let mut merges = Vec::new();
     let top = decompose(&mut r, 0, len, stop_p, group, &mut next_cv, &mut shards, &mut merges, true);
     let _ = top;
-    let mixa = AdapterMix { io: r.chance(1, 2), rayon: r.chance(1, 8), simjoin: r.chance(1, 4), mmap: false, traits: false };
+    let mixa = AdapterMix { io: r.chance(1, 2), rayon: r.chance(1, 8), simjoin: r.chance(1, 4), mmap: false, traits: false, faulty: false };
     let mut hslot = 0usize;
     // workers process shards in a shuffled order
     let mut order: Vec<usize> = (0..shards.len()).collect();
@@ -1223,7 +1242,7 @@ pub fn c09_giant(base_seed: u64, i: u64, g: &GenCtx) -> Plan {
     let len = maxlen.max(1);
     data.push(data_spec(&mut r, len));
     let di = data.len() - 1;
-    let mixa = AdapterMix { io: true, rayon: false, simjoin: r.chance(1, 3), mmap: false, traits: false };
+    let mixa = AdapterMix { io: true, rayon: false, simjoin: r.chance(1, 3), mmap: false, traits: false, faulty: false };
     // whole window as one subtree
     ops.push(Op::NewHasher { slot: 0, mode: m.clone(), via: NewVia::Inherent });
     if r.chance(1, 3) {
@@ -1287,7 +1306,7 @@ pub fn c16_traits(base_seed: u64, i: u64, g: &GenCtx) -> Plan {
             let total = size(&mut r, max);
             data.push(data_spec(&mut r, total));
             let di = data.len() - 1;
-            let mixa = AdapterMix { io: r.chance(1, 3), rayon: false, simjoin: false, mmap: false, traits: true };
+            let mixa = AdapterMix { io: r.chance(1, 3), rayon: false, simjoin: false, mmap: false, traits: true, faulty: true };
             let mut off = 0;
             for f in fragments(&mut r, total) {
                 let via = match r.below(4) {
@@ -1440,7 +1459,7 @@ pub fn c17(base_seed: u64, i: u64, g: &GenCtx) -> Plan {
         };
         data.push(data_spec(&mut r, total));
         let di = data.len() - 1;
-        let mixa = AdapterMix { io: true, rayon: false, simjoin: false, mmap: false, traits: false };
+        let mixa = AdapterMix { io: true, rayon: false, simjoin: false, mmap: false, traits: false, faulty: true };
         let mut off = 0;
         for f in fragments(&mut r, total) {
             ops.push(Op::Absorb { h, data: di, off, len: f, via: adapter(&mut r, f, &mixa) });
@@ -1653,6 +1672,8 @@ const PLAIN_NAMES: &[&[u8]] = &[b"a", b"b", b"c.txt", b"data.bin", b"x y", b"Z"]
 const NASTY_PARTS: &[&[u8]] = &[
     b"a", b"b", b"file", b" ", b"  ", b") = ", b"BLAKE3 (", b"\\", b"\n", b"\r", b"\\n", b"\xc3\xa9", b"\xe6\x97\xa5",
     b"\xf0\x9f\x98\x80", b"\xff", b"\xc3", b"\xef\xbf\xbd", b".", b"=", b"(", b")", b"'", b"\"", b"*", b"\t", b"0", b"f",
+    // other Unicode white space (a trim that is more generous than CR/LF eats these)
+    b"\xc2\xa0", b"\xe3\x80\x80", b"\xe2\x80\xa8", b"\x0b", b"\x0c",
 ];
 
 pub fn nasty_path(r: &mut Rng) -> Vec<u8> {
@@ -1800,6 +1821,12 @@ pub fn c12_hash(base_seed: u64, i: u64, _g: &GenCtx) -> Plan {
         }
         ops.push(Op::CliHash { paths: ps, flags: f, stdin, save: None });
     }
+    if r.chance(1, 8) {
+        // a path whose stat size says nothing about its contents (/proc file, pipe opened by path)
+        data.push(DataSpec::Random { seed: r.next(), len: r.usize_below(40000) });
+        let f = CliFlags { no_mmap: r.chance(1, 3), tag: r.chance(1, 3), num_threads: if r.chance(1, 2) { Some(*r.pick(&[1u8, 2, 16])) } else { None }, ..CliFlags::default() };
+        ops.push(Op::CliSpecial { kind: r.below(2) as u8, flags: f, data: data.len() - 1 });
+    }
     single("C12", "c12-hash", seed, Cfg::default(), data, Level::Detect, ops)
 }
 
@@ -1881,6 +1908,15 @@ fn check_scenario(r: &mut Rng, prop: &str, family: &str, seed: u64, nasty_p: u64
         // one checkfile made of both (plain and --tag lines mixed, in either order)
         let (a, b) = if r.chance(1, 2) { (0, 1) } else { (1, 0) };
         ops.push(Op::CliDamage { cf: a, kind: Damage::Concat { other: b } });
+    }
+    if r.chance(1, 6) {
+        // an entry repeated with "/" or "/." behind its (regular) file name: no such path can be read
+        let suf: &[u8] = *r.pick(&[&b"/"[..], &b"/."[..], &b"//"[..], &b"/.."[..]]);
+        ops.push(Op::CliDamage { cf: *r.pick(&cfs), kind: Damage::DupWithSuffix { line: r.usize_below(8), suffix_hex: hexs(suf) } });
+    }
+    if r.chance(1, 10) {
+        // a long checkfile (every entry many times): the reader's buffer boundaries fall inside lines and characters
+        ops.push(Op::CliDamage { cf: *r.pick(&cfs), kind: Damage::RepeatSelf { n: 40 + r.usize_below(400) } });
     }
     // faults between the two runs
     let nf = r.usize_below(4);
@@ -1990,6 +2026,16 @@ pub fn c11_special(base_seed: u64, i: u64, _g: &GenCtx) -> Plan {
     // the large sysfs file is expensive: rarely
     let kind = if r.chance(1, 40) { 4 } else { *r.pick(&[0u8, 1, 2, 3, 5, 6, 7, 7, 8]) };
     single("C11", "c11-special", seed, Cfg::default(), Vec::new(), Level::Detect, vec![Op::FileKinds { kind }])
+}
+
+/// C11 file half: a file of 2^32 bytes and a little more
+pub fn c11_hugefile(base_seed: u64, i: u64, g: &GenCtx) -> Plan {
+    let seed = mix(base_seed ^ 0x4064F, i);
+    let mut r = Rng::new(seed);
+    // quick: the parallel adapter (page faults on 4 GiB are slow one thread at a time)
+    let via = if g.tier_thorough { (i % 3) as u8 } else { 1 };
+    let ops = vec![Op::HugeFile { extra: *r.pick(&[0u32, 1, 16383, 16384, 70000]), seed: r.next(), via }];
+    single("C11", "c11-hugefile", seed, Cfg::default(), Vec::new(), Level::Detect, ops)
 }
 
 /// C11: Write::write / write_all / io::copy with very large single buffers
@@ -2195,7 +2241,8 @@ pub fn c07_hugeout(base_seed: u64, i: u64, _g: &GenCtx) -> Plan {
     let mut r = Rng::new(seed);
     let mut data = Vec::new();
     let m = c_mode(&mut r, &mut data);
-    let len = r.usize_below(3000);
+    // (a fresh hasher half of the time: only then can one update call hold a subtree of 2^32 bytes)
+    let len = if r.chance(1, 2) { 0 } else { r.usize_below(3000) };
     data.push(DataSpec::Random { seed: r.next(), len });
     let di = data.len() - 1;
     let seek = match r.below(3) {
@@ -2203,15 +2250,29 @@ pub fn c07_hugeout(base_seed: u64, i: u64, _g: &GenCtx) -> Plan {
         1 => Some(r.below(200)),
         _ => Some(xof_pos(&mut r).min(u64::MAX - (1u64 << 33))),
     };
-    let ops = vec![
+    let mut ops = vec![
         Op::CSetMask { mask: 0x7f },
         Op::CInit { slot: 0, flavour: r.below(2) as u8, mode: m, raw: false },
         Op::CUpdate { c: 0, data: di, off: 0, len, tbb: None },
-        Op::CFinalizeHuge { c: 0, seek, extra: *r.pick(&[0u32, 1, 63, 64, 65, 200]) },
-        Op::CFinalize { c: 0, seek: None, out_len: 32 },
     ];
+    if i % 2 == 0 {
+        ops.push(Op::CFinalizeHuge { c: 0, seek, extra: *r.pick(&[0u32, 1, 63, 64, 65, 200]) });
+        ops.push(Op::CFinalize { c: 0, seek: None, out_len: 32 });
+    } else {
+        // ... or one update call with input_len just above 2^32
+        ops.push(Op::CUpdateHuge { c: 0, extra: *r.pick(&[0u32, 1, 1023, 1024, 5000, 70001]) });
+    }
     let mut p = single("C07", "c07-hugeout", seed, Cfg::default(), data, Level::Detect, ops);
     p.cfg.guard_alloc = true;
+    p
+}
+
+/// C06: one update call of 2^32 + k bytes (size_t arithmetic above 32 bits), any mode, either flavour
+pub fn c06_hugein(base_seed: u64, i: u64, g: &GenCtx) -> Plan {
+    let mut p = c07_hugeout(base_seed ^ 0x606, 2 * i + 1, g);
+    p.prop = "C06".into();
+    p.family = "c06-hugein".into();
+    p.cfg.guard_alloc = false;
     p
 }
 
